@@ -5,7 +5,7 @@ CONSTANTS
   Shar0 <- MCShar0
   Rsv0 <- MCRsv0
   Isol0 <- MCIsol0
-  Classes <- MCClasses
+  Classes <- MCClassesQ
   c1 = c1
   c2 = c2
   c3 = c3
